@@ -421,6 +421,13 @@ def _bool_patterns(arms):
     return True
 
 
+def _same_pattern(l1, l2):
+    """two pattern labels that match the same values: equal up to the names of the bindings"""
+    import re as _re
+    norm = lambda l: _re.sub(r"\b[a-z_][a-z0-9_]*\b", "_", l)
+    return norm(l1) == norm(l2)
+
+
 def _catch_all(pat):
     """`_` or a plain binding (`other`): matches whatever reaches it"""
     k = pat.get("k")
@@ -1288,9 +1295,22 @@ class Extractor:
                     if c is not None:
                         failed = failed + (("alt", c, False),)
                 return
+            guards = []   # (label, guard normal form) of the arms seen so far that carry an `if` guard
             for i, a in enumerate(e["arms"]):
                 env_a = env.child()
                 bind_pattern(a["pat"], scrut, env_a)
+                extra = ()
+                # an earlier arm with the same pattern and a guard was tried first: this arm runs when that guard was false
+                for (lab_g, g_nf) in guards:
+                    if _same_pattern(lab_g, labels[i]):
+                        extra += (("alt", g_nf, False),)
+                if a.get("guard"):
+                    g_nf = self.NF.nf(a["guard"], env_a)
+                    extra += (("alt", g_nf, True),)
+                    guards.append((labels[i], g_nf))
+                if extra:
+                    self._visit(fn, a["body"], env_a, ctx + (("alt", ("islet", labels[i], scrut), True),) + extra, out, how)
+                    continue
                 if some is not None:
                     # `match opt { Some(x) => .., None => .. }` reads as `if let Some(x) = opt { .. } else { .. }`
                     alts = (("alt", ("islet", labels[some], scrut), i == some),)
